@@ -102,6 +102,22 @@ PROPS = {
         "min": {"dispatched_lines": 10000, "metamorphic_blank-inserted": 1000, "metamorphic_comment-inserted": 1000,
                 "metamorphic_crlf": 1000, "class_enumerated-transcoded": 1000, "explicit_version_seen": 1000},
     },
+    "C06": {
+        "level": "exploration",
+        "rule": ("generated files in which 1-5 valid records (biased to the stateful hit-object and timing-point sections) are corrupted (field replaced by junk, "
+                 "garbage appended, truncated, swapped, overflowed; for sliders: corruption inside the k-th segment of a multi-segment path, bad bank info after a "
+                 "valid path), each optionally followed by observers (the original record, a plain slider, a circle). Rejected lines are identified by driving "
+                 "the public parse functions over the dispatch walk and cross-checked against the decoder's tracing event log; for every rejected line the file "
+                 "is decoded again without it and compared deeply (Beatmap incl. curves + one specialised decoder); after every Err the public hit-object "
+                 "state must be unchanged. non-trivial = the file contains at least one rejected line; distinct by FNV-64 of the file"),
+        "assumptions": COMMON_ASSUMPTIONS + ["the walk that maps dispatched lines to file positions is the framing model of C05"],
+        "quick": [leg("main", "reltr", 16, 2500, timeout=600, max_secs=150), leg("dbg", "dbg", 8, 600, timeout=600, max_secs=150),
+                  leg("miri", "miri", 8, 3, timeout=900, max_secs=240, pregen=True)],
+        "thorough": [leg("main", "reltr", 16, 62500, timeout=3600, max_secs=1700), leg("dbg", "dbg", 16, 10000, timeout=3600, max_secs=1500),
+                     leg("miri", "miri", 16, 60, timeout=5400, max_secs=2400, pregen=True)],
+        "min": {"rejected_General": 200, "rejected_Editor": 200, "rejected_Metadata": 100, "rejected_Difficulty": 200, "rejected_Events": 100,
+                "rejected_TimingPoints": 200, "rejected_Colours": 200, "rejected_HitObjects": 200, "event_log_rejections": 5000},
+    },
     "C07": {
         "level": "exploration",
         "rule": ("the C01 hostile input stream (well-formed, hostile, mutated, all encodings) plus every bundled file whole; "
@@ -164,6 +180,11 @@ PROPS = {
 }
 
 MANIFEST_TEXT = {
+    "C06": {
+        "technique": "runtime monitoring: delete-the-rejected-line differential, rejected lines taken from the implementation's own tracing event log and the public per-line parsers; state-boundary assertion after every Err; slider subset under Miri",
+        "level_text": "Tens of thousands of rejected lines per run in all eight sections; each is removed and the full deep result compared; a rejected line that leaves any trace refutes the property.",
+        "level_note": "Sampled over files and corruptions; rejection is decided by the real parsers, not by a model.",
+    },
     "C02": {
         "technique": "runtime monitoring: round-trip differential oracle (field-wise key with exact float rendering) over generated and mutated maps; classifier-keyed known findings",
         "level_text": ("Tens of thousands (quick) to millions (thorough) of chronological inputs are decoded, encoded and decoded again, and every listed field is compared; "
